@@ -214,6 +214,9 @@ def _scenario(draw, cap=150):
         sc["cache"] = draw(st.booleans())
     if draw(st.integers(0, 3)) == 3:
         sc["hash_s"] = draw(st.integers(1, 8))
+    sc["api"] = draw(st.sampled_from(["model", "model", "parameters"]))      # model-level wrappers (setCompositionLinear..., setBC) or the parameter objects (build steps, setLeft/RightBoundaryCondition)
+    if draw(st.booleans()):
+        sc["bc_names"] = True              # boundary-condition types given by name ('flux' / 'composition')
     closed = [e for e in els[1:] if bc[e] == [FLUX, 0.0, FLUX, 0.0]]
     if closed and draw(st.booleans()):
         sc["bc_default"] = closed           # closed boundaries left to the model's defaults instead of being set explicitly
